@@ -500,6 +500,11 @@ impl<Writer: Write> Mp4Writer<Writer> {
         if self.finalized {
             return Err(Mp4WriterError::AlreadyFinalized);
         }
+        // The composition offset (pts - dts) is stored as a signed 32-bit ctts entry.
+        let cts = i128::from(pts) - i128::from(dts);
+        if cts > i128::from(i32::MAX) || cts < i128::from(i32::MIN) {
+            return Err(Mp4WriterError::DurationOverflow);
+        }
         // DTS must be monotonically increasing (decode order)
         if let Some(prev) = self.video_prev_pts {
             if dts <= prev {
